@@ -294,33 +294,26 @@ Qed.
 Lemma attrs_eqb_maps_rel a b : attrs_eqb a b = maps_rel aval_eqb a b.
 Proof. reflexivity. Qed.
 
-(* ------------------------------------------------------------------ C++ equality vs "same value" *)
-Lemma dbl_equiv_no_nan a b : dbl_nan a = false -> dbl_equiv a b = dbl_eqb a b.
-Proof. intros H. unfold dbl_equiv. rewrite H. reflexivity. Qed.
-Lemma scal_equiv_no_nan t x y : scal_nan t x = false -> scal_equiv t x y = scal_eqb t x y.
+(* ------------------------------------------------------------------ the key comparison is "same value" *)
+Lemma dbl_equiv_eqb a b : dbl_equiv a b = dbl_eqb a b.
+Proof. unfold dbl_equiv, dbl_eqb. apply orb_comm. Qed.
+Lemma scal_equiv_eqb t x y : scal_equiv t x y = scal_eqb t x y.
+Proof. destruct x as [a|a], y as [b|b]; cbn; try reflexivity. destruct t; cbn; try reflexivity. apply dbl_equiv_eqb. Qed.
+Lemma list_equiv_eqb t l m : list_eqb (scal_equiv t) l m = list_eqb (scal_eqb t) l m.
+Proof. revert m. induction l as [|x l IH]; intros [|y m]; cbn; try reflexivity. rewrite scal_equiv_eqb, IH. reflexivity. Qed.
+Lemma aval_equiv_eqb x y : aval_equiv x y = aval_eqb x y.
 Proof.
-  destruct x as [a|a], y as [b|b]; cbn; try reflexivity.
-  destruct t; cbn; try reflexivity. apply dbl_equiv_no_nan.
-Qed.
-Lemma list_equiv_no_nan t l m : existsb (scal_nan t) l = false -> list_eqb (scal_equiv t) l m = list_eqb (scal_eqb t) l m.
-Proof.
-  revert m. induction l as [|x l IH]; intros [|y m]; cbn; try reflexivity.
-  rewrite orb_false_iff. intros [H1 H2]. rewrite scal_equiv_no_nan by assumption. rewrite IH by assumption. reflexivity.
-Qed.
-Lemma aval_equiv_no_nan x y : aval_nan x = false -> aval_equiv x y = aval_eqb x y.
-Proof.
-  destruct x as [t a|t l], y as [u b|u m]; cbn; try reflexivity; intros H.
-  - rewrite scal_equiv_no_nan by assumption. reflexivity.
-  - rewrite list_equiv_no_nan by assumption. reflexivity.
+  destruct x as [t a|t l], y as [u b|u m]; cbn; try reflexivity.
+  - rewrite scal_equiv_eqb. reflexivity.
+  - rewrite list_equiv_eqb. reflexivity.
 Qed.
 
-(* "same value" is an equivalence that the C++ comparison refines *)
+Lemma dbl_ieee_eqb_sym a b : dbl_ieee_eqb a b = dbl_ieee_eqb b a.
+Proof. unfold dbl_ieee_eqb. rewrite (Z.eqb_sym a b). destruct (dbl_nan a), (dbl_nan b), (dbl_zero a), (dbl_zero b), (b =? a); reflexivity. Qed.
 Lemma dbl_eqb_sym a b : dbl_eqb a b = dbl_eqb b a.
-Proof. unfold dbl_eqb. rewrite (Z.eqb_sym a b). destruct (dbl_nan a), (dbl_nan b), (dbl_zero a), (dbl_zero b), (b =? a); reflexivity. Qed.
-Lemma dbl_equiv_sym a b : dbl_equiv a b = dbl_equiv b a.
-Proof. unfold dbl_equiv. rewrite dbl_eqb_sym. destruct (dbl_nan a), (dbl_nan b); reflexivity. Qed.
-Lemma dbl_equiv_refl a : dbl_equiv a a = true.
-Proof. unfold dbl_equiv, dbl_eqb. rewrite Z.eqb_refl. destruct (dbl_nan a); reflexivity. Qed.
+Proof. unfold dbl_eqb. rewrite dbl_ieee_eqb_sym. destruct (dbl_nan a), (dbl_nan b); reflexivity. Qed.
+Lemma dbl_eqb_refl a : dbl_eqb a a = true.
+Proof. unfold dbl_eqb, dbl_ieee_eqb. rewrite Z.eqb_refl. destruct (dbl_nan a); reflexivity. Qed.
 
 Lemma sty_eqb_eq a b : sty_eqb a b = true <-> a = b.
 Proof. unfold sty_eqb. rewrite Z.eqb_eq. destruct a, b; cbn; split; intros H; try reflexivity; try discriminate; lia. Qed.
@@ -359,35 +352,14 @@ Qed.
 Lemma opt_equiv_is_opt_rel a b : opt_equiv a b = opt_rel aval_equiv a b.
 Proof. destruct a, b; reflexivity. Qed.
 
-(* same_series_iff_equal_maps, the map level: for measurements without NaN values (one side is enough), the code's comparison of the
-   two ordered maps decides equality of the key-to-value maps the measurements denote *)
-Theorem attrs_eqb_iff_sets_equal f a b : kvs_nan a = false ->
-  attrs_eqb (mk_attrs f a) (mk_attrs f b) = sets_equal f a b.
+(* same_series_iff_equal_maps, the map level: the code's comparison of the two ordered maps decides equality of the key-to-value
+   maps the measurements denote - for all values, NaN included *)
+Theorem attrs_eqb_iff_sets_equal f a b : attrs_eqb (mk_attrs f a) (mk_attrs f b) = sets_equal f a b.
 Proof.
-  intros Hn. apply eq_true_iff_eq. rewrite attrs_eqb_maps_rel.
+  apply eq_true_iff_eq. rewrite attrs_eqb_maps_rel.
   rewrite (sorted_rel aval_eqb _ _ (mk_attrs_sorted f a) (mk_attrs_sorted f b)). rewrite sets_equal_iff.
   split; intros H k; specialize (H k); rewrite !mk_attrs_denotes in *; rewrite opt_equiv_is_opt_rel in *;
-  destruct (kept f a k) eqn:Ea, (kept f b k) eqn:Eb; cbn in *; auto;
-  rewrite (aval_equiv_no_nan a0 a1 (kvs_nan_false_kept _ _ _ _ Hn Ea)) in *; assumption.
-Qed.
-
-(* regardless of NaNs: equal ordered maps always denote equal sets (the code never merges different sets outside overflow) *)
-Lemma dbl_eqb_equiv a b : dbl_eqb a b = true -> dbl_equiv a b = true.
-Proof. unfold dbl_equiv. intros ->. apply orb_true_r. Qed.
-Lemma scal_eqb_equiv t x y : scal_eqb t x y = true -> scal_equiv t x y = true.
-Proof. destruct x, y; cbn; auto. destruct t; auto. apply dbl_eqb_equiv. Qed.
-Lemma aval_eqb_equiv x y : aval_eqb x y = true -> aval_equiv x y = true.
-Proof.
-  destruct x as [t a|t l], y as [u b|u m]; cbn; auto; rewrite !andb_true_iff; intros [H1 H2]; split; auto.
-  - apply scal_eqb_equiv. assumption.
-  - revert m H2. induction l as [|x l IH]; intros [|y m]; cbn; auto. rewrite !andb_true_iff. intros [H3 H4].
-    split; [apply scal_eqb_equiv; assumption|apply IH; assumption].
-Qed.
-Theorem attrs_eqb_sets_equal f a b : attrs_eqb (mk_attrs f a) (mk_attrs f b) = true -> sets_equal f a b = true.
-Proof.
-  rewrite attrs_eqb_maps_rel. rewrite (sorted_rel aval_eqb _ _ (mk_attrs_sorted f a) (mk_attrs_sorted f b)). rewrite sets_equal_iff.
-  intros H k. specialize (H k). rewrite !mk_attrs_denotes in H. rewrite opt_equiv_is_opt_rel.
-  destruct (kept f a k), (kept f b k); cbn in *; auto. apply aval_eqb_equiv. assumption.
+  destruct (kept f a k) eqn:Ea, (kept f b k) eqn:Eb; cbn in *; auto; rewrite aval_equiv_eqb in *; assumption.
 Qed.
 
 (* ------------------------------------------------------------------ order-insensitive, last write wins *)
